@@ -319,6 +319,12 @@ def run_C07(em, impl, tabs, rng, thorough):
         f = m.serialize()
         want = b"\xd3" + len(p).to_bytes(2, "big") + p
         want += gen.crc24q_ref(want).to_bytes(3, "big")
+        # asking again must give the same answers (serialize / repr / str / payload are observations, not operations)
+        again = [m.serialize(), m.serialize()]
+        if again != [f, f] or m.payload != p or repr(m) != repr(impl.construct(p, 1)[1]):
+            em.violation("C07: serialize() called a second / third time on the same message gives a different frame (or payload / repr changed)",
+                         {"payload": p.hex(), "note": "serialize() x3 on one object"}, {"first": f.hex()[:80], "second": again[0].hex()[:80], "third": again[1].hex()[:80]})
+            continue
         if f != want or f[1] >> 2 != 0:
             em.violation("C07: serialize() is not 0xD3 + 16-bit length + payload + CRC-24Q", {"payload": p.hex()}, {"got": f.hex(), "want": want.hex()})
             continue
@@ -611,6 +617,21 @@ def run_C14(em, impl, tabs, rng, thorough):
     from pyrtcm.exceptions import RTCMMessageError
     blds = corpus(tabs, rng, 2 if thorough else 1, maxcount=2)
     pays = [b.payload for b in blds] + [bytes([0x12, 0x30, 1, 2, 3]), bytes([0xFE, 0xC0, 0x00, 9])]
+    # payloads whose integer value / bytes hash to 0 or -1 on CPython (multiples of 2**61-1, all zeros): "0 / None / empty as not-yet-set"
+    M61 = (1 << 61) - 1
+    hz = [bytes(n) for n in (2, 3, 8, 19)]
+    for b in blds[:: max(1, len(blds) // 10)]:
+        if len(b.payload) >= 12:
+            a_ = int.from_bytes(b.payload[:-8], "big")
+            x = (-(a_ << 64)) % M61
+            for xx in (x, x + M61):
+                if xx < (1 << 64):
+                    cand = b.payload[:-8] + xx.to_bytes(8, "big")
+                    if int.from_bytes(cand, "big") % M61 == 0 and impl.construct(cand, 1)[0] == 0:
+                        hz.append(cand)
+                        break
+    em.count("hash_zero_payloads", len(hz))
+    pays = hz + pays
     for p in pays:
         tag, m = impl.construct(p, 1)
         add_case(em, impl, p, 1, FULL, "message later subjected to attribute assignment")
@@ -729,7 +750,36 @@ def run_C15(em, impl, tabs, rng, thorough):
             if t2 != 0 or m.identity != str(mid) or m.payload != pl or m.serialize() != gen.frame(pl):
                 em.violation("C15: unknown message number %d whose %s is not preserved" % (mid, what), {"payload": pl.hex()},
                              {"outcome": vlib.TAGNAME[t2], "payload_kept": (m.payload.hex() if t2 == 0 else None)})
-    em.samples = [{"sweep": "all 4096 message numbers x 2-3 variants, all 256 sub-types of 4076, one payload per implemented type"}]
+    # messages handed out by a reader over real file-like objects (BytesIO, BufferedReader: both offer readinto) and KEPT: after the
+    # reader has moved on (list(reader)), every kept message must still be the message of ITS frame
+    import io as _io
+    kept_pl = [b.payload for b in corpus(tabs, rng, 1, maxcount=1)][:: (3 if thorough else 7)]
+    kept_pl += [bytes([0x3e, 0x70, 1, 2, 3]), bytes([0xFE, 0xC0 | 1, 0xF4, 9, 9]), bytes([0x7f, 0xf0]) + bytes(9)]
+    kept_pl = [pl for pl in kept_pl if impl.construct(pl, 1)[0] == 0 and len(pl) <= 1023]
+    data = b"".join(gen.frame(pl) for pl in kept_pl)
+    for mk, what in ((lambda d: _io.BytesIO(d), "BytesIO"), (lambda d: _io.BufferedReader(_io.BytesIO(d)), "BufferedReader")):
+        try:
+            got = list(impl.RTCMReader(mk(data)))
+        except Exception as e:  # noqa
+            em.violation("C15: reader over a %s raised %r" % (what, e), {"stream": data.hex()}, {})
+            continue
+        em.direct_evaluations += len(got)
+        if [r for r, _ in got] != [gen.frame(pl) for pl in kept_pl]:
+            em.violation("C15: reader over a %s does not return the frames of the stream" % what, {"stream": data.hex()}, {})
+            continue
+        for (raw, m), pl in zip(got, kept_pl):
+            fresh = impl.construct(pl, 1)[1]
+            try:
+                obs = (m.identity, bytes(m.payload), m.serialize(), bool(m.ismsm), gen.public_attrs(m))
+                ref = (fresh.identity, pl, gen.frame(pl), bool(fresh.ismsm), gen.public_attrs(fresh))
+            except Exception as e:  # noqa
+                obs, ref = repr(e), None
+            if obs != ref:
+                em.violation("C15: a message kept from a reader over a %s is, after the reader has read on, no longer the message of its frame (identity %r, frame number %d)" % (
+                    what, obs[0] if isinstance(obs, tuple) else obs, pl[0] << 4 | pl[1] >> 4), {"stream": data.hex(), "frame": raw.hex(), "note": "list(RTCMReader(%s)) then inspect" % what}, {})
+                break
+    em.count("kept.messages", len(kept_pl))
+    em.samples = [{"sweep": "all 4096 message numbers x 2-3 variants, all 256 sub-types of 4076, one payload per implemented type; messages kept from file-backed readers"}]
 
 
 def run_C16(em, impl, tabs, rng, thorough):
@@ -791,7 +841,11 @@ def run_C16(em, impl, tabs, rng, thorough):
                 for j, (s, g) in enumerate(cells):
                     if mm.DF396 >> (w - 1 - j) & 1:
                         k += 1
-                        l_ = getattr(mm, "CELLSIG_%02d" % k)
+                        l_ = getattr(mm, "CELLSIG_%02d" % k, None)
+                        if l_ is None:
+                            em.violation("C16: option %d: cell %d of the cell mask has no signal label (NCell=%r)" % (1 if mm is m1 else 2, k, getattr(mm, "NCell", None)),
+                                         {"payload": b.payload.hex(), "labelmsm": 1 if mm is m1 else 2}, {})
+                            break
                         if lab.setdefault(g, l_) != l_:
                             em.violation("C16: signal id %d labelled inconsistently" % g, {"payload": b.payload.hex()}, {})
                         key = (1 if mm is m1 else 2, b.ident[:3], g)
